@@ -207,6 +207,21 @@ def uniqueCount (a : List Int) : Int := (a.eraseDups.length : Int)
 def setdiff1d (a b : List Int) : List Int := ((a.filter (fun x => !b.contains x)).eraseDups).mergeSort (fun x y => decide (x ≤ y))
 /-- `bool(np.all(mask))` -/
 def all (m : List Bool) : Bool := m.all id
+/-- `any(mask)` -/
+def any (m : List Bool) : Bool := m.any id
+
+/-! ### sets of hashable values: duplicate-free lists in insertion order (the iteration order of a Python set is unspecified; what is
+translated may depend on the members only) -/
+namespace Set
+variable [DecidableEq α]
+/-- `s.add(x)` -/
+def add (s : List α) (x : α) : List α := if s.contains x then s else s ++ [x]
+/-- `set(l)` -/
+def ofList (l : List α) : List α := l.foldl add []
+/-- `s.remove(x)` (KeyError = none) -/
+def remove (s : List α) (x : α) : Option (List α) := if s.contains x then some (s.filter (fun y => y ≠ x)) else none
+end Set
+
 /-- element-wise `a < b` -/
 def ltMask (a b : List Int) : List Bool := List.zipWith (fun x y => decide (x < y)) a b
 
